@@ -54,7 +54,7 @@ def plan(tier: str, seed: int) -> list[dict]:
         shards.append({"kind": "exh", "alpha": "A", "maxlen": la, "mod": 16, "rem": k})
     for k in range(16):
         shards.append({"kind": "exh", "alpha": "B", "maxlen": lb, "mod": 16, "rem": k})
-    n = 350 if tier == "quick" else 30000
+    n = 220 if tier == "quick" else 30000
     for k in range(16):
         shards.append({"kind": "random", "n": n})
     return shards
